@@ -1,9 +1,9 @@
 (* extraction of the C19 models and checkers: ExtrOcamlBasic only (bool, option, unit, list, prod, sumbool mapped); Z, positive, nat, Q stay inductive *)
-Require Import GeosV.C19.LinRefDefs GeosV.C19.CheckDefs.
+Require Import GeosV.C19.LinRefDefs GeosV.C19.CheckDefs GeosV.C19.LRFoldDefs.
 Require Extraction.
 Require Import ExtrOcamlBasic.
 Extraction "xc19.ml" get_location get_location_r len_of total normalise extract_line lines_len interpolate project project_loc
-  point_of_loc d2_pt_seg qd2 q_of_z wfb clamp_index
+  point_of_loc d2_pt_seg qd2 q_of_z wfb clamp_index index_of_q
   merge_units_ok merge_nodes_ok merge_pts_ok merge_check
   node_disjoint_ok node_kernel_agrees node_in_on_out node_out_near_in node_cover_in node_cover_out noding_check
   polyg_valid_ok polyg_sides_ok polyg_edges_in polyg_account_ok polyg_dangles_ok polyg_cuts_ok polyg_disjoint_ok polygonize_check
